@@ -7,6 +7,7 @@
 #include <pthread.h>
 #include <stdarg.h>
 #include <unordered_map>
+#include <map>
 #include <mutex>
 
 #ifdef VERIF_TSAN
@@ -42,6 +43,34 @@ void forget_all() { std::lock_guard<AcctLock> g(mu); L().clear(); }
 
 u64 g_syslog_calls = 0;
 
+// Outside threaded runs there is exactly one client thread: the simulator keeps the books of the library's locks
+// itself (never blocking), so a lock the library forgot to release, or takes twice, is a deterministic verdict instead
+// of a hang.
+struct SeqLock { int writer = 0; int readers = 0; };
+static std::map<void *, SeqLock> g_seq_locks;
+static bool g_seq_book = false;   // enabled by the engine while a sequential run executes
+void seq_locks_enable(bool on) { g_seq_book = on; if (on) g_seq_locks.clear(); }
+int seq_locks_held() { int n = 0; for (auto &kv : g_seq_locks) n += kv.second.writer + kv.second.readers; return n; }
+void seq_locks_reset() { g_seq_locks.clear(); }
+static int seq_lock(void *l, int excl, int is_try) {
+    SeqLock &L = g_seq_locks[l];
+    bool free_ = excl ? (L.writer == 0 && L.readers == 0) : (L.writer == 0);
+    if (!free_) {
+        if (!is_try && g_world) g_world->viol("C13 C14 C15 C16 C17 C18", excl ? "lock/self-deadlock-write" : "lock/self-deadlock-read",
+                                              "the library asks for a lock it still holds from an earlier call or path (a real caller would block forever)");
+        return is_try ? 16 : 35;  /* EBUSY / EDEADLK */
+    }
+    if (excl) L.writer = 1; else L.readers++;
+    return 0;
+}
+static int seq_unlock(void *l) {
+    SeqLock &L = g_seq_locks[l];
+    if (L.writer) L.writer = 0;
+    else if (L.readers > 0) L.readers--;
+    else if (g_world) g_world->viol("C13 C14 C15 C16 C17 C18", "lock/unlock-of-unheld-lock", "the library releases a lock it does not hold");
+    return 0;
+}
+
 extern "C" {
 void *__wrap_malloc(size_t n) { void *p = malloc(n); own::on_alloc(p, n); return p; }
 void *__wrap_calloc(size_t a, size_t b) { void *p = calloc(a, b); own::on_alloc(p, a * b); return p; }
@@ -73,14 +102,16 @@ static void real_before_release(void *l, int is_mutex) {
 static inline void real_after_grant(void *, int, int) {}
 static inline void real_before_release(void *, int) {}
 #endif
-int __wrap_pthread_rwlock_rdlock(pthread_rwlock_t *l) { if (sched_active()) { int r = sched_lock(l, 0); real_after_grant(l, 0, 0); return r; } return pthread_rwlock_rdlock(l); }
-int __wrap_pthread_rwlock_wrlock(pthread_rwlock_t *l) { if (sched_active()) { int r = sched_lock(l, 1); real_after_grant(l, 1, 0); return r; } return pthread_rwlock_wrlock(l); }
-int __wrap_pthread_rwlock_tryrdlock(pthread_rwlock_t *l) { if (sched_active()) { int r = sched_trylock(l, 0); if (!r) real_after_grant(l, 0, 0); return r; } return pthread_rwlock_tryrdlock(l); }
-int __wrap_pthread_rwlock_trywrlock(pthread_rwlock_t *l) { if (sched_active()) { int r = sched_trylock(l, 1); if (!r) real_after_grant(l, 1, 0); return r; } return pthread_rwlock_trywrlock(l); }
-int __wrap_pthread_rwlock_unlock(pthread_rwlock_t *l) { if (sched_active()) { real_before_release(l, 0); return sched_unlock(l); } return pthread_rwlock_unlock(l); }
-int __wrap_pthread_mutex_lock(pthread_mutex_t *l) { if (sched_active()) { int r = sched_lock(l, 1); real_after_grant(l, 1, 1); return r; } return pthread_mutex_lock(l); }
-int __wrap_pthread_mutex_trylock(pthread_mutex_t *l) { if (sched_active()) { int r = sched_trylock(l, 1); if (!r) real_after_grant(l, 1, 1); return r; } return pthread_mutex_trylock(l); }
-int __wrap_pthread_mutex_unlock(pthread_mutex_t *l) { if (sched_active()) { real_before_release(l, 1); return sched_unlock(l); } return pthread_mutex_unlock(l); }
+#define SEQ (g_seq_book && !sched_active())
+
+int __wrap_pthread_rwlock_rdlock(pthread_rwlock_t *l) { if (SEQ) return seq_lock(l, 0, 0); if (sched_active()) { int r = sched_lock(l, 0); real_after_grant(l, 0, 0); return r; } return pthread_rwlock_rdlock(l); }
+int __wrap_pthread_rwlock_wrlock(pthread_rwlock_t *l) { if (SEQ) return seq_lock(l, 1, 0); if (sched_active()) { int r = sched_lock(l, 1); real_after_grant(l, 1, 0); return r; } return pthread_rwlock_wrlock(l); }
+int __wrap_pthread_rwlock_tryrdlock(pthread_rwlock_t *l) { if (SEQ) return seq_lock(l, 0, 1); if (sched_active()) { int r = sched_trylock(l, 0); if (!r) real_after_grant(l, 0, 0); return r; } return pthread_rwlock_tryrdlock(l); }
+int __wrap_pthread_rwlock_trywrlock(pthread_rwlock_t *l) { if (SEQ) return seq_lock(l, 1, 1); if (sched_active()) { int r = sched_trylock(l, 1); if (!r) real_after_grant(l, 1, 0); return r; } return pthread_rwlock_trywrlock(l); }
+int __wrap_pthread_rwlock_unlock(pthread_rwlock_t *l) { if (SEQ) return seq_unlock(l); if (sched_active()) { real_before_release(l, 0); return sched_unlock(l); } return pthread_rwlock_unlock(l); }
+int __wrap_pthread_mutex_lock(pthread_mutex_t *l) { if (SEQ) return seq_lock(l, 1, 0); if (sched_active()) { int r = sched_lock(l, 1); real_after_grant(l, 1, 1); return r; } return pthread_mutex_lock(l); }
+int __wrap_pthread_mutex_trylock(pthread_mutex_t *l) { if (SEQ) return seq_lock(l, 1, 1); if (sched_active()) { int r = sched_trylock(l, 1); if (!r) real_after_grant(l, 1, 1); return r; } return pthread_mutex_trylock(l); }
+int __wrap_pthread_mutex_unlock(pthread_mutex_t *l) { if (SEQ) return seq_unlock(l); if (sched_active()) { real_before_release(l, 1); return sched_unlock(l); } return pthread_mutex_unlock(l); }
 
 // --- syslog (defined in the executable: takes precedence over libc for calls from the .so's)
 void syslog(int, const char *, ...) { g_syslog_calls++; }
